@@ -22,7 +22,7 @@ namespace C16Driver
 
 def consts : LineSearch.Consts Rat :=
   { one := 1, half := 1/2, c099 := 99/100, c202 := 101/50, quadDelta := 1/10, cubicDelta := 1/5,
-    huge := (10 : Rat) ^ 100, tol := 1 / 1000000000 }
+    huge := (10 : Rat) ^ 100, tol := 1 / 1000000000, eps := 1 / (2 : Rat) ^ 42 }
 
 def optRat? (j : Json) (k : String) : Option (Option Rat) :=
   match field? j k with
